@@ -173,6 +173,12 @@ def generate(rng):
     if not case.get("validation_only") and rng.random() < 0.12:
         from .common import sample_constraints
         case["second"] = sample_constraints(rng, cfg["n"], max_pairs=2)      # the decorated model is decorated once more
+    if not case.get("validation_only") and case["kind"] != "valid" and rng.random() < 0.6:
+        # the rejected call is caught and the SAME estimator is used further (fitted, or decorated with a corrected set)
+        case["use_after_reject"] = True
+        if "second" not in case and rng.random() < 0.5:
+            from .common import sample_constraints
+            case["second"] = sample_constraints(rng, cfg["n"], max_pairs=3)
     cfg["case"] = case
     cfg["n2"] = cfg["n"] if rng.random() < 0.6 else cfg["n"] + rng.randint(1, 5)
     faults = {"sched": sample_sched(rng, decorated=True), "opt": weighted(rng, [("real", 4), ("identity", 1)])}
@@ -245,10 +251,16 @@ def execute(record):
                 res.violate(f"C14:validation:wrong_exception:{reason}", {"exc": type(exc).__name__, "msg": str(exc)[:160]})
         elif accepted and out is not model:
             res.violate("C14:validation:returned_other_object", {})
-        if accepted and want_accept and not case.get("validation_only"):
-            pairs_ml = [tuple(p) for p in ml]
-            pairs_cl = [tuple(p) for p in cl]
+        # A REJECTED call must leave no trace: the caller catches the ValueError and goes on using the same estimator
+        # (fits it as it is, or decorates it with a corrected set) - no pair of the rejected set may then act.
+        after_reject = (not accepted) and (not want_accept) and bool(case.get("use_after_reject"))
+        if ((accepted and want_accept) or after_reject) and not case.get("validation_only"):
+            pairs_ml = [tuple(p) for p in ml] if accepted else []
+            pairs_cl = [tuple(p) for p in cl] if accepted else []
             factor = case["factor"]
+            decorated = accepted
+            if after_reject:
+                res.probe("estimator_used_after_rejected_decoration")
             # (i, j, signed factor): + pushes apart (cannot-link), - pulls together (must-link)
             terms = [(i, j, factor) for (i, j) in pairs_cl] + [(i, j, -factor) for (i, j) in pairs_ml]
             second = case.get("second")
@@ -263,10 +275,14 @@ def execute(record):
                         terms += [(i, j, -second["factor"]) for (i, j) in map(tuple, second["must_link"])]
                         pairs_cl = pairs_cl + [tuple(p) for p in second["cannot_link"]]
                         pairs_ml = pairs_ml + [tuple(p) for p in second["must_link"]]
-                        res.probe("stacked_decorations")
+                        decorated = True
+                        res.probe("stacked_decorations" if accepted else "corrected_set_after_rejection")
                     except ValueError as e:
                         res.violate("C14:validation:false_reject:second_decoration", {"second": second, "msg": str(e)[:160]})
             h.pairs = pairs_ml + pairs_cl
+            if after_reject and well_formed:
+                # the adversarial batch orders join / split the pairs of the REJECTED set too (a trace of it would act there)
+                h.pairs = h.pairs + [tuple(p) for p in ml + cl if len(p) == 2]
             h.wrap_batchify()
             outer_inner = model._compute_grads   # the (outermost) decorator's intercept_grads
 
@@ -277,7 +293,7 @@ def execute(record):
                     res.probe("batches_with_undecidable_duplicates")     # identical rows, batch not a slice of the permutation
                     return outer_inner(Xb, y_pred, gradient)
                 rec_idx = getattr(model._batchify, "indices", None)
-                if rec_idx is None or list(rec_idx) != ids:
+                if decorated and (rec_idx is None or list(rec_idx) != ids):
                     res.violate("C14:indices", {"recorded": None if rec_idx is None else [int(v) for v in rec_idx], "true": ids})
                 Ab = Ab_now
                 P = np.array(y_pred, copy=True)
